@@ -512,6 +512,53 @@ theorem C09_theta1_solution_lifts (M : Static) (F : ResFn) (hE : M.L.nE = 0)
   simp [dq, List.getD_eq_getElem?_getD, List.getElem?_map, List.getElem?_range hk]
   rfl
 
+/-- **`reset()` restores the initial state, after any history.**  Whatever sequence of
+    `update` / `set_var` / `reset` calls (returning or raising) has been made since
+    `initialize()`, the saved initial state vector is unchanged, so a `reset()` puts exactly the
+    state vector of the end of `initialize()` back (every `get_var`, the clock included, is as
+    right after `initialize()`), and a run re-started after the reset is the run a freshly
+    initialised object would make: same calls, same states.  Any number of resets. -/
+theorem C09_reset_restores (M : Static) (F G : ResFn) (root : Root) (o : SimObj) (ops ops' : List Op) :
+    (applyOps M F G root o ops).init = o.init
+    ∧ (applyOps M F G root o ops).reset.cur.sv = o.init
+    ∧ (∀ i neg, getVar M (applyOps M F G root o ops).reset.cur i neg
+          = getVar M { sv := o.init, dt := 0 } i neg)
+    ∧ (applyOps M F G root (applyOps M F G root o ops).reset ops').cur
+        = (applyOps M F G root
+            { cur := { sv := o.init, dt := (applyOps M F G root o ops).cur.dt }, init := o.init } ops').cur := by
+  have hinit : ∀ (ops : List Op) (o : SimObj), (applyOps M F G root o ops).init = o.init := by
+    intro ops
+    induction ops with
+    | nil => intro o; rfl
+    | cons op rest ih =>
+      intro o
+      show (applyOps M F G root (applyOp M F G root o op) rest).init = o.init
+      rw [ih]
+      cases op <;> rfl
+  have h1 := hinit ops o
+  refine ⟨h1, ?_, ?_, ?_⟩
+  · show (applyOps M F G root o ops).init = o.init
+    exact h1
+  · intro i neg
+    show getVar M { sv := (applyOps M F G root o ops).init, dt := _ } i neg = _
+    rw [h1]
+    rfl
+  · have : (applyOps M F G root o ops).reset
+        = { cur := { sv := o.init, dt := (applyOps M F G root o ops).cur.dt }, init := o.init } := by
+      show ({ cur := { sv := (applyOps M F G root o ops).init, dt := _ },
+              init := (applyOps M F G root o ops).init } : SimObj) = _
+      rw [h1]
+    rw [this]
+
+/-- non-vacuity: two updates, a reset, a `set_var`, an update, a second reset on the concrete
+    instance: the saved vector is intact and the state is the initial one again -/
+example :
+    (applyOps exM exF exG (checkedRoots exCands) { cur := exS, init := exS.sv }
+        [.update 1, .update (-1), .reset, .setVar 0 false 5, .update 1, .reset]).cur.sv = exS.sv
+    ∧ (applyOps exM exF exG (checkedRoots exCands) { cur := exS, init := exS.sv }
+        [.update 1, .update (-1)]).cur.sv ≠ exS.sv := by
+  constructor <;> decide +kernel
+
 /-- the root finder used by the model driver in the correspondence runs (exact affine solve,
     answer re-checked) honours `RootSound`: the trajectories the driver produces are instances
     of the theorems above -/
